@@ -86,6 +86,9 @@ pub enum UOp {
     /// the Upgrader drives the harness target whose version is state (see harness::labelled_target):
     /// requested version "0.<req>.0", code hash stamping "0.<hash_ver>.0", migration data re-stamping "0.<d>.0"
     UpgraderLabelled { req: u8, hash_ver: u8, data: Option<u8>, cover: Cover, abort: Option<u16> },
+    /// migrate of the harness target whose migration installs the owner named in its data (the window is
+    /// opened by the simulator first): `who` authorises, `new_owner` is the migration data
+    MigrateOwnerSetter { new_owner: u8, auth: AuthVar, abort: Option<u16> },
     Advance { dseq: u32 },
     Resubmit { k: u16 },
 }
@@ -100,6 +103,7 @@ impl UOp {
             UOp::TransferOwnership { .. } => "transfer_ownership",
             UOp::ViaUpgrader { .. } => "via_upgrader",
             UOp::UpgraderLabelled { .. } => "upgrader_labelled",
+            UOp::MigrateOwnerSetter { .. } => "migrate_owner_setter",
             UOp::Advance { .. } => "advance",
             UOp::Resubmit { .. } => "resubmit",
         }
@@ -135,6 +139,9 @@ pub struct UExec {
     pub v_dummy: String,
     pub history: Vec<UOp>,
     pub labelled: Address,
+    pub owner_setter: Address,
+    /// model: owner of the owner-setting target
+    pub os_owner: usize,
     /// model of the labelled target: the digit of its version label "0.<d>.0"
     pub label: u8,
 }
@@ -537,6 +544,43 @@ impl UExec {
                 self.label = after_migrate;
                 ctx.count("probe.upgrader_completed_both_steps");
             }
+            UOp::MigrateOwnerSetter { new_owner, auth, abort } => {
+                let taddr = self.owner_setter.clone();
+                let ni = *new_owner as usize % NP;
+                // open the window as `upgrade` would
+                env.as_contract(&taddr, || env.storage().instance().set(&mirror_keys::DataKey::Interfaces_Migrating, &()));
+                let o = self.os_owner;
+                let args: SVec<Val> = (self.p[ni].clone(),).into_val(&env);
+                let alt: SVec<Val> = (self.p[(ni + 1) % NP].clone(),).into_val(&env);
+                // the candidate principals include the owner the migration would install
+                let c = AuthCtx { right: o, former: None, other_role: 2, counterparty: ni, owner: o, stranger: STRANGER };
+                if auth.is_fault() {
+                    ctx.count(&format!("F7.migrate_owner_setter.{}", auth.name()));
+                }
+                let (entries, ok) = match resolve_auth(&mut self.sim, *auth, &c) {
+                    None => (vec![], false),
+                    Some((w, other)) => (vec![AuthEntry { who: self.p[w].clone(), root: AuthNode::new(&taddr, "migrate", if other { alt } else { args.clone() }) }], w == o && !other),
+                };
+                let label = if ok { "accept" } else { "unauthorised" };
+                ctx.judged(&["C15", "C06"], hash_of(&self.os_owner) ^ ni as u64, "migrate_owner_setter", label);
+                let res = self.sim.call(&taddr, "migrate", args, &entries, *abort);
+                ctx.note(|| format!("migrate owner-setter new_owner=p{} auth={:?} owner=p{} expect={} -> {}", ni, auth, o, label, res.out.err_text()));
+                if !after_call(ctx, &res, "migrate", &["C15"]) {
+                    return;
+                }
+                ctx.count(&format!("op.migrate_owner_setter.{}.{}", label, res.out.class()));
+                if !ok {
+                    if must_fail(ctx, &res, &["C15", "C06"], &format!("migrate/accepted-without-owner-auth:{}", auth.name()), "the migration ran without the authorisation of the owner at call time") {
+                        // the refused call left the window open; close it again so that the next attempt starts clean
+                        env.as_contract(&taddr, || env.storage().instance().remove(&mirror_keys::DataKey::Interfaces_Migrating));
+                    }
+                    return;
+                }
+                if !ctx.check(res.out.is_ok(), &["C15"], "migrate/valid-migration-refused", || res.out.err_text()) {
+                    return;
+                }
+                self.os_owner = ni;
+            }
             UOp::Advance { dseq } => {
                 crate::common::advance_ledgers(&self.sim, ctx, *dseq);
             }
@@ -563,6 +607,12 @@ impl UExec {
             if !ctx.check(ov.as_ref() == Some(&self.p[self.m[t].owner]), &["C06", "C15"], "invariant/owner-differs", || format!("{} owner() differs", TARGET_NAMES[t])) {
                 return;
             }
+        }
+        let os = self.owner_setter.clone();
+        let oo = self.sim.query(&os, "owner", SVec::new(&env));
+        let oov = oo.val().and_then(|x| Address::try_from_val(&env, &x).ok());
+        if !ctx.check(oov.as_ref() == Some(&self.p[self.os_owner]), &["C06", "C15"], "invariant/owner-differs", || "owner-setter owner() differs".to_string()) {
+            return;
         }
         let lt = self.labelled.clone();
         let v = self.sim.query(&lt, "version", SVec::new(&env));
@@ -592,7 +642,7 @@ impl World for WorldU {
     fn generate(rng: &mut Rng, p: GenParams) -> (UCfg, Vec<UOp>) {
         let f_abort = p.faults && rng.chance(1, 2);
         let n = rng.range(6, if p.thorough { 30 } else { 20 }) as usize;
-        let w: [u32; 7] = if p.focus == "C06" { [30, 25, 8, 25, 6, 6, 2] } else { [24, 30, 12, 8, 20, if p.faults { 6 } else { 0 }, 8] };
+        let w: [u32; 8] = if p.focus == "C06" { [30, 25, 8, 25, 6, 6, 2, 6] } else { [24, 30, 12, 8, 20, if p.faults { 6 } else { 0 }, 8, 6] };
         let mut ops = vec![];
         // a run concentrates on few targets so that sequences get long enough
         let focus_targets: Vec<u8> = (0..rng.range(1, 3)).map(|_| rng.below(NT as u64) as u8).collect();
@@ -621,6 +671,11 @@ impl World for WorldU {
                     }
                 }
                 5 => UOp::Resubmit { k: rng.below(32) as u16 },
+                7 => UOp::MigrateOwnerSetter {
+                    new_owner: rng.below(NP as u64) as u8,
+                    auth: if p.faults && rng.chance(1, 2) { *rng.pick(&[AuthVar::Counterparty, AuthVar::Stranger, AuthVar::Nobody, AuthVar::RightOtherArgs, AuthVar::Counterparty]) } else { AuthVar::Right },
+                    abort,
+                },
                 _ => {
                     let req = rng.range(1, 4) as u8;
                     UOp::UpgraderLabelled {
@@ -681,6 +736,7 @@ impl World for WorldU {
         let ndummy = env.register(NativeDummy, (&p[0],));
         let upgrader = env.register(Upgrader, ());
         let labelled = env.register(crate::harness::labelled_target::LabelledTarget, (&p[0],));
+        let owner_setter = env.register(crate::harness::owner_setter::OwnerSetter, (&p[0],));
         let h_contract = env.deployer().upload_contract_wasm(CONTRACT_WASM);
         let h_dummy = env.deployer().upload_contract_wasm(DUMMY_WASM);
         // what versions do the pre-built artefacts report?
@@ -696,7 +752,7 @@ impl World for WorldU {
         sim.end_setup();
         let targets = vec![gateway, gas, operators, its, token, derived, ndummy];
         let m: Vec<TModel> = (0..NT).map(|_| TModel { code: Code::Native, window: false, owner: 0, former: None, upgrades: 0, migrations: 0 }).collect();
-        let mut ex = UExec { sim, p, targets, upgrader, m, h_contract, h_dummy, v_contract, v_dummy, history: vec![], labelled, label: 1 };
+        let mut ex = UExec { sim, p, targets, upgrader, m, h_contract, h_dummy, v_contract, v_dummy, history: vec![], labelled, label: 1, owner_setter, os_owner: 0 };
         ex.invariants(ctx);
         for (i, op) in ops.iter().enumerate() {
             if ctx.stopped() {
@@ -741,7 +797,7 @@ impl World for WorldU {
     fn simplify(op: &UOp) -> Vec<UOp> {
         let mut o = op.clone();
         match &mut o {
-            UOp::Upgrade { abort, .. } | UOp::Migrate { abort, .. } | UOp::ViaUpgrader { abort, .. } | UOp::UpgraderLabelled { abort, .. } => {
+            UOp::Upgrade { abort, .. } | UOp::Migrate { abort, .. } | UOp::ViaUpgrader { abort, .. } | UOp::UpgraderLabelled { abort, .. } | UOp::MigrateOwnerSetter { abort, .. } => {
                 if abort.is_some() {
                     *abort = None;
                     return vec![o];
